@@ -84,4 +84,5 @@ def main(tier):
     chk.run("R-ALIASATTR", SY.aliasattr, cx.repo, clauses=("attribute_clauses", "anonymous_own"), floor=3)
     chk.run("R-EXTINT", BR.extint, cx.repo, floor=2)
     chk.run("R-FIELDREADER", BK.fieldreader, cx.repo, floor=6)
+    chk.run("R-LOCFLAGS", P.locflags, cx.repo, floor=5, control=lambda: P.control_locflags(cx.repo))
     return chk.finish()
